@@ -110,6 +110,9 @@ func Load(dirs []string) (*Loaded, error) {
 	if !hasRoot {
 		patterns = append(patterns, "./.")
 	}
+	// pure-Go generic helper packages are loaded with syntax so that their
+	// (instantiated) bodies can be interpreted like repo code
+	patterns = append(patterns, "slices", "cmp")
 	cfg := &packages.Config{
 		Mode:    packages.LoadSyntax | packages.NeedModule,
 		Dir:     repoDir,
